@@ -10,6 +10,7 @@ PROP_FILE = "C07.v"
 KINDS = {  # shard prefix -> (jsonl file, label used in violation keys)
     "scases": ("scases.jsonl", "split"),
     "kcases": ("kcases.jsonl", "cache"),
+    "qcases": ("qcases.jsonl", "history"),
     "hcases": ("hcases.jsonl", "handshake"),
     "rcases": ("rcases.jsonl", "request"),
 }
@@ -148,7 +149,7 @@ def run(ctx):
     counts = meta.get("counts", {})
     evals = sum(int(v) for v in counts.values())
     dist = meta.get("distribution", {})
-    nontriv = int(dist.get("split_accepted", 0)) + int(counts.get("cache", 0)) + int(counts.get("handshake", 0)) + int(counts.get("request", 0))
+    nontriv = int(dist.get("split_accepted", 0)) + int(counts.get("history", 0)) + int(counts.get("cache", 0)) + int(counts.get("handshake", 0)) + int(counts.get("request", 0))
     leaks = [o for o in (meta.get("request_observations") or []) if o.get("plain") and o["case"].get("tls")]
     coverage = {
         "obligations": n_ob + len(table_obs),
@@ -171,7 +172,8 @@ def run(ctx):
         "distinct_nontrivial": nontriv,
         "rule": "split: every string of length <= 5 (6 thorough) over {a,1,.,:,[,]} through net.SplitHostPort and url.Hostname (exhaustive) + corpus; "
                 "cache: 14 names (DNS any case, IPv4, IPv6 bare/bracketed/non-canonical, with and without port) x 8 pre-loaded cache entries "
-                "(none, valid, expired, not yet valid, other name, other case, other CA, wrong SAN kind) through the real cert(); handshake: real "
+                "(none, valid, expired, not yet valid, other name, other case, other CA, wrong SAN kind) through the real cert(); history: random sequences (4..13 operations) of pokes (10 kinds of certificates, also valid ones "
+                "of another name), evictions and cert() calls on one real cache, against the sequential reading of the LTS; handshake: real "
                 "CONNECT + TLS handshakes through 4 proxy configurations (no list, mitm-domains include/exclude, cache capacity 1 with TTL 300 ms "
                 "under 24 concurrent handshakes, validity 2 s with a second round after expiry), SNI absent/same/other case/different, client "
                 "verifies each chain independently; request: inner requests (origin-form/absolute-form x X-Forwarded-Proto values) towards origins "
